@@ -50,7 +50,7 @@ impl<'t, D: Doc> ScanResultInner<'t, D> {
   }
 }
 
-struct Suppressions(HashMap<usize, Suppression>);
+struct Suppressions(HashMap<usize, Vec<Suppression>>);
 impl Suppressions {
   fn collect<D: Doc>(&mut self, node: &Node<D>) {
     if !node.kind().contains("comment") || !node.text().contains(IGNORE_TEXT) {
@@ -63,26 +63,19 @@ impl Suppressions {
       true
     };
     let key = if suppress_next_line { line + 1 } else { line };
-    self.0.insert(
-      key,
-      Suppression {
-        suppressed: parse_suppression_set(&node.text()),
-        node_id: node.node_id(),
-      },
-    );
+    self.0.entry(key).or_default().push(Suppression {
+      suppressed: parse_suppression_set(&node.text()),
+      node_id: node.node_id(),
+    });
   }
 
   fn suppression_ids(&self) -> HashSet<usize> {
-    self.0.values().map(|s| s.node_id).collect()
+    self.0.values().flatten().map(|s| s.node_id).collect()
   }
 
-  fn check_suppression<D: Doc>(&mut self, node: &Node<D>) -> MaySuppressed {
+  fn check_suppression<D: Doc>(&self, node: &Node<D>) -> &[Suppression] {
     let line = node.start_pos().line();
-    if let Some(sup) = self.0.get_mut(&line) {
-      MaySuppressed::Yes(sup)
-    } else {
-      MaySuppressed::No
-    }
+    self.0.get(&line).map(|v| v.as_slice()).unwrap_or(&[])
   }
 }
 
@@ -92,26 +85,12 @@ struct Suppression {
   node_id: usize,
 }
 
-enum MaySuppressed<'a> {
-  Yes(&'a Suppression),
-  No,
-}
-
-impl MaySuppressed<'_> {
-  fn suppressed_id(&self, rule_id: &str) -> Option<usize> {
-    let suppression = match self {
-      MaySuppressed::No => return None,
-      MaySuppressed::Yes(s) => s,
-    };
-    if let Some(set) = &suppression.suppressed {
-      if set.contains(rule_id) {
-        Some(suppression.node_id)
-      } else {
-        None
-      }
-    } else {
-      Some(suppression.node_id)
-    }
+impl Suppression {
+  fn names(&self, rule_id: &str) -> bool {
+    self
+      .suppressed
+      .as_ref()
+      .map_or(true, |set| set.contains(rule_id))
   }
 }
 
@@ -192,8 +171,12 @@ impl<'r, L: Language> CombinedScan<'r, L> {
         let Some(ret) = rule.matcher.match_node(node.clone()) else {
           continue;
         };
-        if let Some(id) = suppression.suppressed_id(&rule.id) {
-          suppression_ids.remove(&id);
+        let mut suppressed = false;
+        for sup in suppression.iter().filter(|s| s.names(&rule.id)) {
+          suppression_ids.remove(&sup.node_id);
+          suppressed = true;
+        }
+        if suppressed {
           continue;
         }
         if rule.fix.is_none() || !separate_fix {
